@@ -15,7 +15,7 @@ RULE = ('cases: histories over {learn(snet, router, dnets, status), status(snet,
         '3..6, random ones of length 300 (also over a wider domain 5 x 5 x 8), the repaired-defect witnesses, two systematic families (the same MAC on two source networks followed by forget / renumber / announce on one of them; a router announcing dnets held by two different routers of the same source network); the cache is '
         'dumped after EVERY operation (key sets, every router record, every lookup, identity of the record a path leads to). '
         'nsap cases: the same kind of history sent as real IAmRouterToNetwork / NetworkNumberIs / routed NPDUs (same MACs 1..3 on both LANs) plus delete_router_references calls over two '
-        'vlan.Networks into a two-adapter NetworkServiceAccessPoint, cache dumped after each frame, compared with the model '
+        'vlan.Networks into a two- or three-adapter NetworkServiceAccessPoint whose adapters sit on link stubs that go down (downstream requests raise) and come back while frames keep arriving; cache dumped after each frame / link change, compared with the model '
         'run on the operations the frames stand for.  direct: breadth-first over all DISTINCT reachable cache states to depth '
         '2 (quick) / 4 (thorough) with every op of the alphabet applied to each (= all histories of length <= 3 / 5, since the '
         'predicate depends on the state only), random histories of length 300, and next-hop MAC of frames emitted by the '
@@ -314,11 +314,47 @@ def _task_manager():
     return _TM[0]
 
 
-class Rig:
-    """router node under test: adapters on vlan net A (number 1, configured or learned) and vlan
-    net B (number 2, configured); MAC 9 on both.  Peers 1..3 on each LAN send frames."""
+class LinkDown(RuntimeError):
+    """raised by the link stub under an adapter while its link is down"""
 
-    def __init__(self, learned_a=False, start_a=1):
+
+_LINK = []
+
+
+def link_class():
+    """a datalink stub between a NetworkAdapter and its vlan.Node: downstream requests raise while the
+    link is down (like a vlan node removed from its network, or a datalink that is not up yet);
+    upstream traffic is always delivered - the node still observes what arrives"""
+    if not _LINK:
+        from bacpypes.comm import Client, Server
+
+        class Link(Client, Server):
+            def __init__(self, name):
+                Client.__init__(self)
+                Server.__init__(self)
+                self.name, self.up, self.refused = name, True, 0
+
+            def indication(self, pdu):
+                if not self.up:
+                    self.refused += 1
+                    raise LinkDown('%s: link is down' % (self.name,))
+                self.request(pdu)
+
+            def confirmation(self, pdu):
+                self.response(pdu)
+        _LINK.append(Link)
+    return _LINK[0]
+
+
+SNN = [NONE, 1, 2, 3, 4]       # source nets dumped in NPDU-driven histories (LAN C is net 4)
+
+
+class Rig:
+    """router node under test: adapters on vlan net A (number 1, configured or learned), vlan net B
+    (number 2, configured) and optionally vlan net C (number 4, configured); MAC 9 on each, each
+    behind a link stub that can go down and come back.  Peers 1..3 on each LAN send frames."""
+
+    def __init__(self, learned_a=False, start_a=1, three=False):
         from bacpypes.netservice import NetworkServiceAccessPoint, NetworkServiceElement
         from bacpypes.comm import bind
         from bacpypes.vlan import Network, Node
@@ -338,10 +374,16 @@ class Rig:
         bind(self.nse, self.nsap)
         self.lans, self.nodes, self.sniff = {}, {}, {}
         self.adapters = {}
-        for name, net in (('A', None if learned_a else start_a), ('B', 2)):
+        self.links = {}
+        self.raised = 0            # handlers left with the link stub's exception
+        Link = link_class()
+        for name, net in (('A', None if learned_a else start_a), ('B', 2)) + ((('C', 4),) if three else ()):
             lan = Network(broadcast_address=LocalBroadcast())
             node = Node(Address(9), lan)
-            self.nsap.bind(node, net, Address(9))
+            link = Link(name)
+            bind(link, node)
+            self.links[name] = link
+            self.nsap.bind(link, net, Address(9))
             self.adapters[name] = self.nsap.adapters[net]
             self.lans[name] = lan
             frames = []
@@ -368,7 +410,10 @@ class Rig:
                 busy = True
             task, delta = _TM[0].get_next_task()
             if task is not None:
-                _TM[0].process_task(task)
+                try:
+                    _TM[0].process_task(task)
+                except LinkDown:
+                    self.raised += 1          # a handler was left because relaying hit a dead link
                 busy = True
             n += 1
             if n > limit:
@@ -396,12 +441,15 @@ class Rig:
         from bacpypes.npdu import NetworkNumberIs
         self._send(lan, mac, NetworkNumberIs(net=net, flag=flag))
 
-    def send_routed(self, lan, mac, snet):
-        """application traffic from (snet, 77) relayed by router `mac` to our local address"""
+    def send_routed(self, lan, mac, snet, dnet=None):
+        """application traffic from (snet, 77) relayed by router `mac` to our local address, or (dnet
+        given) to station (dnet, 5) - to be forwarded by the node through another adapter"""
         from bacpypes.pdu import RemoteStation, Address
         from bacpypes.npdu import NPDU
         n = NPDU()
         n.npduSADR = RemoteStation(snet, 77)
+        if dnet is not None:
+            n.npduDADR = RemoteStation(dnet, 5)
         n.npduHopCount = 200
         n.pduData = b'\x10\x08'          # unconfirmed who-is
         self._send_raw(lan, mac, n)
@@ -414,6 +462,13 @@ class Rig:
         pdu.pduDestination = Address(9)
         self.nodes[(lan, mac)].indication(pdu)
         self.drain()
+
+    def send_whois(self, lan, mac, dnet):
+        from bacpypes.npdu import WhoIsRouterToNetwork
+        self._send(lan, mac, WhoIsRouterToNetwork(dnet))
+
+    def set_link(self, lan, up):
+        self.links[lan].up = bool(up)
 
     def delete(self, net, mac, dnets):
         from bacpypes.pdu import Address
@@ -431,11 +486,19 @@ class Rig:
             del f[:]
         apdu = UnconfirmedRequestPDU(8)
         apdu.pduDestination = RemoteStation(dnet, 5)
-        self.nsap.indication(apdu)
-        self.drain()
-        # forget the parked packet so that probing does not change later behaviour
-        self.nsap.pending_nets.pop(dnet, None)
+        dead = None
+        try:
+            self.nsap.indication(apdu)
+            self.drain()
+        except LinkDown as e:
+            dead = str(e).split(':')[0]
+            self.drain()
+        finally:
+            # forget the parked packet so that probing does not change later behaviour
+            self.nsap.pending_nets.pop(dnet, None)
         hops = set()
+        if dead is not None:
+            hops.add((dead, -1, 'link-down'))
         for lan, frames in self.sniff.items():
             for mac, pdu in frames:
                 n = NPDU()
@@ -460,8 +523,11 @@ def random_msg(rng):
     if r < 0.6:
         n = rng.choice([0, 1, 1, 2, 2, 3])
         return ('iam', lan, mac, tuple(rng.choice(DN) for _ in range(n)))
+    if r < 0.66:
+        return ('routed', lan, mac, rng.choice(DN + [1, 2, 3, 4]))
     if r < 0.72:
-        return ('routed', lan, mac, rng.choice(DN + [1, 2, 3]))
+        # routed traffic the node has to forward: to a directly connected net or to a dnet behind a router
+        return ('fwd', lan, mac, rng.choice(DN + [1, 2, 3, 4]), rng.choice(DN + [1, 2, 3, 4]))
     if r < 0.84:
         # NetworkServiceAccessPoint.delete_router_references (the API applications use to withdraw knowledge)
         k = rng.random()
@@ -469,32 +535,70 @@ def random_msg(rng):
             return ('del', lan, mac, None)
         n = rng.choice([1, 1, 2])
         return ('del', lan, mac if k < 0.7 else None, tuple(rng.choice(DN) for _ in range(n)))
-    # never B's own number 2: that clash replaces adapter B in NetworkServiceAccessPoint.adapters (not cache behaviour)
-    return ('nni', 'A', mac, rng.choice([1, 3, 3]))
+    if r < 0.92:
+        # never B's own number 2 (or C's 4): that clash replaces the adapter in NetworkServiceAccessPoint.adapters
+        return ('nni', 'A', mac, rng.choice([1, 3, 3]))
+    return ('whois', lan, mac, rng.choice(DN))
 
 
-def run_msgs(msgs, learned_a, start_a=1):
+def random_msgs(rng, n, three, outage):
+    """n frames; with `outage` the links of the node go down and come back while frames keep arriving"""
+    lans = 'ABC' if three else 'AB'
+    msgs, down = [], set()
+    for _ in range(n):
+        if outage and rng.random() < 0.22:
+            lan = rng.choice(lans)
+            if lan in down:
+                down.discard(lan)
+                msgs.append(('link', lan, 1))
+            else:
+                down.add(lan)
+                msgs.append(('link', lan, 0))
+            continue
+        m = random_msg(rng)
+        if three and m[0] != 'nni' and rng.random() < 0.3:
+            m = (m[0], 'C') + m[2:]
+        msgs.append(m)
+    for lan in sorted(down):          # everything comes back at the end
+        msgs.append(('link', lan, 1))
+    return msgs
+
+
+def run_msgs(msgs, learned_a, start_a=1, three=False, probe=None):
     """drive the rig; return (observation list, the history of cache ops the frames stand for,
-    the rig).  The op translation uses only the adapter numbers the harness itself tracks."""
-    rig = Rig(learned_a=learned_a, start_a=start_a)
+    the rig, A's number).  The op translation uses only the adapter numbers the harness itself
+    tracks and NEVER the link states: what the node observes updates its knowledge whatever
+    happens to the copies it relays.  probe(rig, hist, netA, down) is called after every step."""
+    rig = Rig(learned_a=learned_a, start_a=start_a, three=three)
     netA = start_a            # what adapter A believes
-    hist, out = [], []
+    nets = {'B': 2, 'C': 4}
+    hist, out, down = [], [], set()
     for m in msgs:
-        before = len(hist)
+        net = netA if m[1] == 'A' else nets[m[1]]
+        attached = {netA, 2} | ({4} if three else set())
+        extra = None
         if m[0] == 'iam':
-            net = netA if m[1] == 'A' else 2
             hist.append(('L', NONE if net is None else net, m[2], m[3], 0))
+            before = rig.raised
+            relay_ok = [rig.links[l].up for l in sorted(rig.links) if l != m[1]]
             rig.send_iam(m[1], m[2], m[3])
+            extra = (relay_ok, 1 if rig.raised > before else 0, NONE if net is None else net)
         elif m[0] == 'routed':
-            net = netA if m[1] == 'A' else 2
-            attached = {netA, 2}
             if m[3] not in attached:
                 hist.append(('L', NONE if net is None else net, m[2], (m[3],), 0))
             rig.send_routed(m[1], m[2], m[3])
+        elif m[0] == 'fwd':
+            if m[3] not in attached:
+                hist.append(('L', NONE if net is None else net, m[2], (m[3],), 0))
+            rig.send_routed(m[1], m[2], m[3], m[4])
         elif m[0] == 'del':
-            net = netA if m[1] == 'A' else 2
             hist.append(('F', NONE if net is None else net, m[2], m[3]))
             rig.delete(net, m[2], m[3])
+        elif m[0] == 'whois':
+            rig.send_whois(m[1], m[2], m[3])
+        elif m[0] == 'link':
+            rig.set_link(m[1], m[2])
+            (down.discard if m[2] else down.add)(m[1])
         else:
             new = m[3]
             # NetworkNumberIs on A (netservice.py NetworkNumberIs): only a learned number follows
@@ -502,31 +606,54 @@ def run_msgs(msgs, learned_a, start_a=1):
                 hist.append(('R', NONE if netA is None else netA, new))
                 netA = new
             rig.send_nni('A', m[2], new)
-        for _ in range(len(hist) - before):
-            pass
-        out.append((len(hist), dump(rig.cache, SN, AD, DN)))
+        out.append((len(hist), dump(rig.cache, SNN, AD, DN), extra, m))
+        if probe is not None:
+            if probe(rig, list(hist), netA, set(down), m):
+                break
     return out, hist, rig, netA
 
 
-def case_nsap(msgs, learned_a):
-    """expected = dump after each frame; model = dump after the corresponding prefix of ops"""
+def case_nsap(msgs, learned_a, three=False):
+    """expected = dump after each frame / link change; model = dump after the corresponding prefix of
+    ops (which ignore the link states)"""
+    kind = 'nsap-outage' if any(m[0] == 'link' for m in msgs) else 'nsap-msgs'
+    desc = {'op': 'nsap', 'learned_a': learned_a, 'three': three, 'msgs': [list(m) for m in msgs]}
     try:
-        out, hist, rig, _ = run_msgs(msgs, learned_a)
+        out, hist, rig, _ = run_msgs(msgs, learned_a, three=three)
     except RecursionError:
         raise
     except Exception as e:
         # the node raised while handling a frame: the model (which cannot) will disagree
-        return Case('nsap-msgs', '[0]', [1, exc_code(e)], key=('nsap', learned_a, tuple(msgs)), nontrivial=True,
-                    desc={'op': 'nsap', 'learned_a': learned_a, 'msgs': [list(m) for m in msgs]})
-    exp, segs, done = [], [], 0
-    for n, d in out:
+        return Case(kind, '[0]', [1, exc_code(e)], key=('nsap', learned_a, three, tuple(msgs)), nontrivial=True, desc=desc)
+    exp, frames, done = [], [], 0
+    for n, d, extra, m in out:
+        if extra is not None:
+            # an announcement: the model is told the state of the OTHER adapters' links; it must give the
+            # same cache whatever they are, and the same "handler left by an exception" flag
+            relay_ok, flag, net = extra
+            exp.append(flag)
+            frames.append('FIAm [%s] %s %s %s' % (';'.join('true' if b else 'false' for b in relay_ok), _z(net), _z(m[2]), _zl(m[3])))
+        else:
+            frames.append('FOps %s' % coq_hist(hist[done:n]))
         exp += pack(d)
-        segs.append(coq_hist(hist[done:n]))
         done = n
-    expr = 'observe_segments %s %s %s empty [%s]' % (_zl(SN), _zl(AD), _zl(DN), '; '.join(segs))
-    return Case('nsap-msgs', expr, exp, key=('nsap', learned_a, tuple(msgs)),
-                nontrivial=len(hist) > 0,
-                desc={'op': 'nsap', 'learned_a': learned_a, 'msgs': [list(m) for m in msgs]})
+    expr = 'observe_frames %s %s %s empty [%s]' % (_zl(SNN), _zl(AD), _zl(DN), '; '.join(frames))
+    return Case(kind, expr, exp, key=('nsap', learned_a, three, tuple(msgs)), nontrivial=len(hist) > 0, desc=desc)
+
+
+OUTAGE_WITNESSES = [
+    # (three adapters?, learned A?, frames): an older router is known, the link of ANOTHER adapter goes down, a
+    # competing / brand-new announcement arrives during the outage, the link comes back
+    (False, False, [('iam', 'A', 1, (10,)), ('link', 'B', 0), ('iam', 'A', 2, (10, 11)), ('link', 'B', 1)]),
+    (False, True, [('iam', 'B', 1, (10,)), ('link', 'A', 0), ('iam', 'B', 3, (10,)), ('routed', 'B', 2, 12), ('link', 'A', 1)]),
+    (True, False, [('iam', 'A', 1, (10, 11)), ('link', 'C', 0), ('iam', 'A', 2, (11,)), ('iam', 'B', 1, (12,)),
+                   ('nni', 'A', 1, 3), ('link', 'C', 1), ('iam', 'C', 3, (13,))]),
+    (True, True, [('link', 'B', 0), ('link', 'C', 0), ('iam', 'A', 1, (10,)), ('nni', 'A', 2, 3), ('iam', 'A', 2, (10,)),
+                  ('whois', 'A', 1, 12), ('link', 'B', 1), ('link', 'C', 1)]),
+    (False, False, [('link', 'A', 0), ('iam', 'A', 1, (10,)), ('routed', 'A', 2, 11), ('link', 'A', 1)]),
+    # routed traffic to be forwarded through a dead link: its source network is still learned
+    (False, False, [('iam', 'A', 1, (12,)), ('link', 'B', 0), ('fwd', 'A', 2, 12, 2), ('fwd', 'A', 3, 13, 10), ('link', 'B', 1)]),
+]
 
 
 def cases(rng, tier):
@@ -569,6 +696,14 @@ def cases(rng, tier):
     for _ in range(1500 if big else 200):
         msgs = [random_msg(rng) for _ in range(rng.choice([3, 6, 10, 20]))]
         out.append(case_nsap(msgs, learned_a=rng.random() < 0.6))
+    # outages: the link under one or more adapters of a 2- or 3-port node goes down and comes back while
+    # announcements / routed traffic / Network-Number-Is keep arriving
+    for three, learned, msgs in OUTAGE_WITNESSES:
+        out.append(case_nsap(msgs, learned_a=learned, three=three))
+    for _ in range(1500 if big else 300):
+        three = rng.random() < 0.5
+        msgs = random_msgs(rng, rng.choice([4, 8, 12, 20]), three, outage=True)
+        out.append(case_nsap(msgs, learned_a=rng.random() < 0.5, three=three))
     return out
 
 
@@ -717,55 +852,96 @@ def bfs(alpha, depth, sns, ads, dns, failures, stats, tag, cap=None):
     return n, len(seen)
 
 
-def direct_nsap(rng, n_hist, failures, stats):
-    """message-driven histories; afterwards the frames the node emits towards each dnet must go
-    to the router its cache names, on that router's LAN, and nowhere else"""
-    evals = 0
-    for i in range(n_hist):
-        learned = rng.random() < 0.6
-        msgs = [random_msg(rng) for _ in range(rng.choice([2, 4, 8, 16]))]
-        try:
-            out, hist, rig, netA = run_msgs(msgs, learned)
-        except RecursionError:
-            raise
-        except Exception as e:
-            failures.append({'kind': 'nsap-raises', 'exc': type(e).__name__, 'learned_a': learned,
-                             'msgs': [list(m) for m in msgs]})
-            continue
-        evals += 1
+def nsap_probe(failures, ctx):
+    """judge the node after every frame / link change: indexes agree, the cache answers exactly what the
+    frames OBSERVED so far say (whatever happened to relayed copies), and application data sent now goes
+    to the router the property's reading names, on that router's LAN and nowhere else (or is refused by
+    the dead link of exactly that LAN)"""
+    state = {'K': {}, 'n': 0}
+
+    def fail(kind, **kw):
+        kw.update(kind=kind, **ctx)
+        failures.append(kw)
+        return True
+
+    def probe(rig, hist, netA, down, m):
+        for op in hist[state['n']:]:
+            state['K'], _ = spec_step(state['K'], op)
+        state['n'] = len(hist)
+        K = state['K']
+        step = list(m)
         bad = coherent(rig.cache)
         if bad:
-            failures.append({'kind': 'nsap-indexes-disagree', 'what': bad, 'learned_a': learned,
-                             'msgs': [list(m) for m in msgs]})
-            continue
-        # knowledge according to the property, from the frames alone
-        K = {}
-        for op in hist:
-            K, _ = spec_step(K, op)
+            return fail('nsap-indexes-disagree', what=bad, at=step)
+        got_k = knowledge(rig.cache, SNN, DN + [1, 2, 3, 4])     # routed traffic also reveals nets 1..4
+        if got_k != K:
+            key = sorted(set(K.items()) ^ set(got_k.items()))[0][0]
+            return fail('nsap-wrong-knowledge', snet=key[0], dnet=key[1], got=got_k.get(key), want=K.get(key),
+                        links_down=sorted(down), at=step)
         attached = {netA: 'A', 2: 'B'}
+        if 'C' in rig.links:
+            attached[4] = 'C'
         for d in DN:
-            if d in attached:
-                continue
             try:
                 hops = rig.next_hop(d)
+            except RecursionError:
+                raise
             except Exception as e:
-                failures.append({'kind': 'nsap-send-raises', 'exc': type(e).__name__, 'dnet': d,
-                                 'learned_a': learned, 'msgs': [list(m) for m in msgs]})
-                break
-            # the NSAP tries its adapters in dict order; a next hop known on either LAN is acceptable
+                return fail('nsap-send-raises', exc=type(e).__name__, dnet=d, at=step)
+            # the NSAP tries its adapters in dict order; a next hop known on any attached LAN is acceptable
             want = set()
             for net, lan in attached.items():
                 a = K.get((NONE if net is None else net, d))
                 if a is not None:
                     want.add((lan, a))
-            got = set((lan, mac) for lan, mac, dst in hops if dst == str(mac))
-            other = [h for h in hops if h[2] != str(h[1])]     # seen via broadcast: not a unicast to a router
-            ok = (not want and not got) or (len(got) == 1 and got <= want)
+            dead = set(h[0] for h in hops if h[2] == 'link-down')
+            real = [h for h in hops if h[2] != 'link-down']
+            got = set((lan, mac) for lan, mac, dst in real if dst == str(mac))
+            other = [h for h in real if h[2] != str(h[1])]     # seen via broadcast: not a unicast to a router
+            if not want:
+                ok = not got
+            elif dead:
+                ok = not got and dead <= set(l for l, _ in want) and dead <= down
+            else:
+                ok = len(got) == 1 and got <= want
             if not ok or other:
-                failures.append({'kind': 'nsap-next-hop', 'dnet': d, 'got': sorted(got), 'want': sorted(want),
-                                 'learned_a': learned, 'msgs': [list(m) for m in msgs]})
-                break
+                return fail('nsap-next-hop', dnet=d, got=sorted(got), want=sorted(want), links_down=sorted(down),
+                            refused_by=sorted(dead), at=step)
+        return False
+    return probe
+
+
+def direct_nsap(rng, n_hist, failures, stats):
+    """message-driven histories on 2- and 3-adapter nodes, with and without link outages, judged by
+    nsap_probe after every step"""
+    evals = steps = outages = raised = 0
+    plan = [(three, True, (learned, msgs)) for three, learned, msgs in OUTAGE_WITNESSES]
+    plan += [(False, False, None)] * n_hist + [(None, True, None)] * n_hist
+    for three, outage, fixed in plan:
+        if fixed:
+            learned, msgs = fixed
+        else:
+            learned = rng.random() < 0.6
+            if three is None:
+                three = rng.random() < 0.5
+            msgs = random_msgs(rng, rng.choice([2, 4, 8, 16]), three, outage) if outage else \
+                [random_msg(rng) for _ in range(rng.choice([2, 4, 8, 16]))]
+        ctx = {'learned_a': learned, 'three': three, 'msgs': [list(m) for m in msgs]}
+        try:
+            out, hist, rig, netA = run_msgs(msgs, learned, three=three, probe=nsap_probe(failures, ctx))
+        except RecursionError:
+            raise
+        except Exception as e:
+            failures.append(dict(ctx, kind='nsap-raises', exc=type(e).__name__))
+            continue
+        evals += 1
+        steps += len(out)
+        outages += 1 if any(m[0] == 'link' for m in msgs) else 0
+        raised += rig.raised
     stats['nsap_histories'] = evals
+    stats['nsap_steps_probed'] = steps
+    stats['nsap_histories_with_outage'] = outages
+    stats['nsap_handlers_left_by_dead_link'] = raised
     return evals
 
 
@@ -885,8 +1061,11 @@ def replay(payload):
         print('agree' if got == exp else 'DISAGREE')
     elif 'msgs' in f:
         msgs = [tuple(tuple(x) if isinstance(x, list) else x for x in m) for m in f['msgs']]
-        out, hist, rig, netA = run_msgs(msgs, f.get('learned_a', False))
-        print('ops the frames stand for:', hist)
-        print('cache lookups:', knowledge(rig.cache, SN, DN), 'coherent:', coherent(rig.cache) or 'yes')
+        fl = []
+        out, hist, rig, netA = run_msgs(msgs, f.get('learned_a', False), three=f.get('three', False),
+                                        probe=nsap_probe(fl, {}))
+        print('ops the frames stand for (up to the failing step):', hist)
+        print('verdict:', fl or 'ok')
+        print('cache lookups:', knowledge(rig.cache, SNN, DN), 'coherent:', coherent(rig.cache) or 'yes')
         for d in DN:
             print('  next hop to', d, ':', sorted(rig.next_hop(d)))
